@@ -28,3 +28,6 @@ import RenetVerif.Lemmas.SrcEquiv.NcServerSend
 import RenetVerif.Lemmas.SrcEquiv.NcServerRecv
 import RenetVerif.Lemmas.SrcEquiv.NcTokenGen
 import RenetVerif.Lemmas.SrcEquiv.NcClient
+import RenetVerif.Lemmas.SrcEquiv.TrSocket
+import RenetVerif.Lemmas.SrcEquiv.TrServer
+import RenetVerif.Lemmas.SrcEquiv.TrClient
